@@ -72,7 +72,10 @@ def was(name):
 
 
 def val():
-    return CUR[0][1]
+    v = CUR[0][1]
+    if 400000 <= v < 500000:
+        return float(v - 400000)        # script values are codes: FloatBase + n is the float n.0
+    return v
 
 
 def exc():
